@@ -41,9 +41,9 @@ var propConfigs = map[string]*propConfig{
 	}},
 	"C11": {pkgs: []string{"./pkg/procbuilder", "./pkg/bondmachine"}, notes: []string{
 		"decided: Machine.Jsoner/Machine_json.Dejsoner and Bondmachine.Jsoner/Bondmachine_json.Dejsoner copy every persisted field (one obligation per struct field is generated from the struct definitions, so a field added without extending the copiers fails); Dejsoner restores an opcode for every name that is registered and never leaves such an entry nil; a save-then-load harness proves field-wise equality and same-name opcode restoration for machines whose opcodes are registered",
-		"decided for shared objects: for lfsr8, barrier, queue, stack, sharedmem and channel the instance's String and the element's Instantiate are proved inverse on every parameter value, and every Instantiate accepts only texts with its own kind prefix (so the first-match loop of Dejsoner cannot pick another kind)",
+		"decided for shared objects: for lfsr8, barrier, queue, stack, sharedmem, channel, kbd and uart the instance's String and the element's Instantiate are proved inverse on every parameter value, and every Instantiate accepts only texts with its own kind prefix (so the first-match loop of Dejsoner cannot pick another kind)",
 		"transient fields by declaration: Conproc.CpID, Conproc.SharedHDLOps, Arch.Tag (assigned by the HDL writer before use)",
-		"not decided: 'simulates identically / regenerates byte-identical Verilog' (follows only if those depend on persisted fields alone), the textual round trip of the kbd, uart and vtextmem shared objects (parameters parsed with strings.Split; only their claim on the text prefix is proved), EventuallyCreateInstruction (trusted contract: it keeps registered opcodes in place and does not append when the name is already registered), encoding/json itself",
+		"not decided: 'simulates identically / regenerates byte-identical Verilog' (follows only if those depend on persisted fields alone), the textual round trip of the vtextmem shared object (only its claim on the text prefix is proved), EventuallyCreateInstruction (trusted contract: it keeps registered opcodes in place and does not append when the name is already registered), encoding/json itself",
 	}},
 	"C14": {pkgs: []string{"./pkg/bmmatrix", "./pkg/bmqsim", "./pkg/bmline", "./pkg/bmmeta"}, extra: func(c *checkRun) { c14Canary(c); c14Bounded(c) }, notes: []string{
 		"decided for the layering: QasmToBmMatrices hands BmMatrixFromOperation only layers in which no qubit is named twice (the precondition the matrix builder relies on), at both flush sites, for circuits of any length; the layer under construction is always exactly the contiguous run of source lines ending at the current line (no line skipped, duplicated or reordered) and its qubits are exactly those recorded as in use",
